@@ -8,6 +8,7 @@
 #include "core.hpp"
 #include "session.hpp"
 #include "xzutil.hpp"
+#include "../model/reflzma.hpp"
 
 #include <algorithm>
 #include <dirent.h>
@@ -72,6 +73,7 @@ static void c04_gen(Rng &rng, Plan &plan, bool thorough)
 		if (rng.chance(700)) plan.setp("memlimit", -1);
 	}
 	plan.setp("fix_crc", rng.chance(400) ? 1 : 0);
+	if (rng.chance(120)) plan.setp("synth_illegal", 1);
 	uint32_t flags = 0;
 	if (rng.chance(500)) flags |= LZMA_CONCATENATED;
 	if (rng.chance(200)) flags |= LZMA_TELL_ANY_CHECK;
@@ -96,6 +98,8 @@ struct Ctx {
 	Verdict *v;
 	SimAlloc al;
 	std::string entry;
+	uint64_t out_digest = 1469598103934665603ull, out_len = 0;   // what the streaming decoders delivered
+	int last_status = -1;
 	void viol(const std::string &cls, const std::string &msg) { v->fail(cls, "C04/" + cls, msg + " [" + entry + "]"); }
 };
 
@@ -141,6 +145,8 @@ static void drive_stream(Ctx &c, lzma_stream *s, const Bytes &data, const Plan &
 		++calls;
 		size_t used = in_n - s->avail_in, made = out_n - s->avail_out;
 		pos += used;
+		for (size_t q = 0; q < made; ++q) c.out_digest = (c.out_digest ^ ob[q]) * 1099511628211ull;
+		c.out_len += made; c.last_status = (int)r;
 		free(ib); free(ob);
 		s->next_in = nullptr; s->next_out = nullptr;
 		if (!status_ok_for_decoder(r)) { c.viol("internal-ret", fmt("lzma_code returned undocumented status %d", (int)r)); return; }
@@ -248,7 +254,20 @@ static Bytes make_data(const Plan &plan, int entry, Chain &chain, Verdict &v, lz
 		default: build_artefact(plan, data, plain, info, err); break;
 		}
 	};
-	if (src == 0 || src == 3) {
+	if (plan.p("synth_illegal", 0) && (entry == E_ALONE || entry == E_AUTO || entry == E_RAW)) {
+		// a stream with one symbol whose distance reaches just outside the dictionary (model/reflzma synth)
+		ref::SynthRng sr((uint64_t)plan.p("art_seed", 1));
+		sr.illegal_site_target = 0; sr.illegal_kind = 0;
+		Bytes pl; unsigned ft = 0;
+		if (entry == E_RAW) {
+			uint32_t dict = chain.lz.dict_size ? chain.lz.dict_size : 4096;
+			data = ref::synth_lzma2(sr, dict, 1 + (size_t)sr.below(3), pl, &ft);
+			// decode it with a plain LZMA2 chain of that dictionary size
+			chain.f[0].id = LZMA_FILTER_LZMA2; chain.f[0].options = &chain.lz; chain.f[1].id = LZMA_VLI_UNKNOWN; chain.f[1].options = nullptr;
+		} else data = ref::synth_alone(sr, 3, 0, 2, 1u << 16, sr.chance(500), sr.chance(500), 1 + (size_t)sr.below(300), pl, &ft);
+		v.count("fault.illegal_distance_symbol", sr.illegal_emitted);
+		if (uncomp_size) *uncomp_size = pl.size();
+	} else if (src == 0 || src == 3) {
 		generated();
 		if (src == 3 && !data.empty()) {
 			size_t keep = (size_t)((uint64_t)plan.p("rand_seed") % (data.size() + 1));
@@ -279,7 +298,28 @@ static Bytes make_data(const Plan &plan, int entry, Chain &chain, Verdict &v, lz
 	return data;
 }
 
+static void c04_exec_once(const Plan &plan, Verdict &v, uint64_t *digest);
+
 static void c04_exec(const Plan &plan, Verdict &v)
+{
+	uint64_t d1 = 0, d2 = 0;
+	SimAlloc::poison_byte = 0xA5;
+	c04_exec_once(plan, v, &d1);
+	int entry = (int)plan.p("entry") % E_COUNT;
+	bool st_stream = entry == E_STREAM || entry == E_AUTO || entry == E_ALONE || entry == E_LZIP || entry == E_MICROLZMA || entry == E_RAW || entry == E_BLOCK;
+	if (v.ok && st_stream && d1 != 0 && plan.p("rand_seed") % 2 == 0) {
+		// poison differential (stands in for MSan): the same decode with fresh allocations filled with
+		// another byte must deliver the same bytes and the same final status
+		Verdict v2;
+		SimAlloc::poison_byte = 0x3C;
+		c04_exec_once(plan, v2, &d2);
+		SimAlloc::poison_byte = 0xA5;
+		v.count("oracle.poison_differential_runs");
+		if (v2.ok && d2 != d1) v.fail("uninitialised-memory-in-output", "C04/uninitialised-memory-in-output", fmt("the decoder's output or final status depends on the contents of freshly allocated memory [%s]", e_names[entry]));
+	}
+}
+
+static void c04_exec_once(const Plan &plan, Verdict &v, uint64_t *digest)
 {
 	int entry = (int)plan.p("entry") % E_COUNT;
 	Ctx c; c.v = &v; c.entry = e_names[entry];
@@ -343,6 +383,7 @@ static void c04_exec(const Plan &plan, Verdict &v)
 	if (streaming) {
 		if (r == LZMA_OK) drive_stream(c, &s, entry == E_BLOCK ? body : data, plan, is_mt, seek, data.size());
 		else if (!ret_is_public(r)) c.viol("internal-ret", fmt("init returned %d", (int)r));
+		if (digest) *digest = mix64(mix64(c.out_digest, c.out_len), (uint64_t)(c.last_status + 2)) | 1;
 		lzma_end(&s);
 		lzma_index_end(idx, al);
 		lzma_filters_free(bf, al);
